@@ -311,6 +311,94 @@ def stream_http(ctx, n, robots=False):
         ctx.sample(first)
 
 
+# ------------------------------------------------------------------ web session with the cookie jar the application builds
+def cookies_once(raws, urls, seed):
+    """Fetch `urls` one after the other through the real WebClient with the application's cookie jar and policy
+    (http.cookiejar.CookieJar + DeFactoCookiePolicy + CookieJarWrapper); the i-th request gets raws[i]."""
+    import http.cookiejar
+    from wpull.cookie import DeFactoCookiePolicy
+    from wpull.cookiewrapper import CookieJarWrapper
+    from wpull.network.pool import ConnectionPool
+    from wpull.protocol.http.client import Client
+    from wpull.protocol.http.request import Request
+    from wpull.protocol.http.web import WebClient
+
+    async def go():
+        net = fakenet.FakeNet()
+        rng = random.Random(seed)
+        state = {'i': 0}
+        net.default = lambda: RawHandler(list(raws), False, rng, state)
+        with net:
+            jar = http.cookiejar.CookieJar()
+            jar.set_policy(DeFactoCookiePolicy(cookie_jar=jar))
+            web = WebClient(http_client=Client(connection_pool=ConnectionPool(resolver=fakenet.FakeResolver())),
+                            cookie_jar=CookieJarWrapper(jar))
+
+            async def run_it():
+                for u in urls:
+                    session = web.session(Request(u))
+                    with session:
+                        while not session.done():
+                            await compat._ensure(session.start())
+                            await compat._ensure(session.download(file=io.BytesIO(), duration_timeout=30))
+            task = asyncio.ensure_future(run_it())
+            done = await fakenet.settle(task, [], extra=20000)
+            if not done:
+                task.cancel()
+                try:
+                    await task
+                except BaseException:
+                    pass
+                return 'stalled'
+            try:
+                task.result()
+                return None
+            except Exception as e:  # noqa
+                return e
+    return compat.run(go())
+
+
+def gen_set_cookie(rng, i):
+    name = 'c%d' % i if rng.random() < 0.85 else rng.choice(['sid', '', 'a b', 'x=y', '$Version', 'é'])   # mostly distinct: the jar fills up
+    val = rng.choice(['v', '', '"q"', 'a;b', 'x' * 300, '\udcff'.encode('utf-8', 'surrogateescape').decode('latin-1')])
+    attrs = []
+    if rng.random() < 0.5:
+        attrs.append('Path=' + rng.choice(['/', '/shop', '/shop/cart', '/a/b/c/', '', 'nopath', '/%zz', '/x' * 100]))
+    if rng.random() < 0.15:
+        attrs.append('Domain=' + rng.choice(['a.test', '.a.test', 'test', '.test', 'b.test', 'a.test.', '', '.', 'sub.a.test', '[::1]', 'a.test:80']))
+    if rng.random() < 0.3:
+        attrs.append(rng.choice(['Expires=Wed, 09 Jun 2021 10:18:14 GMT', 'Expires=garbage', 'Max-Age=0', 'Max-Age=-1', 'Max-Age=x', 'Max-Age=' + '9' * 40,
+                                 'Expires=Thu, 01 Jan 1970 00:00:00 GMT', 'Expires=Fri, 31 Dec 9999 23:59:59 GMT']))
+    if rng.random() < 0.2:
+        attrs.append(rng.choice(['Secure', 'HttpOnly', 'Version=1', 'Version=x', 'Port="80,x"', 'Comment=\x00', 'Discard']))
+    return '%s=%s%s' % (name, val, ''.join('; ' + a for a in attrs))
+
+
+def stream_cookies(ctx, n):
+    rng = ctx.subrng('cookies')
+    first = None
+    for _ in range(n):
+        k = rng.randint(2, 5)
+        urls, raws = [], []
+        for j in range(k):
+            urls.append('http://a.test' + rng.choice(['/', '/index.html', '/shop/cart.html', '/a/b/c/d.html', '/shop/', '/x?y=1', '/robots.txt']))
+            ncookies = rng.choice([0, 1, 3, 40, 90, 130]) if j < k - 1 else rng.choice([0, 1, 2])
+            hdr = ['HTTP/1.1 200 OK', 'Content-Length: 2', 'Content-Type: text/html']
+            hdr += ['%s: %s' % (rng.choice(['Set-Cookie', 'Set-Cookie', 'set-cookie', 'Set-Cookie2']), gen_set_cookie(rng, i + 100 * j)) for i in range(ncookies)]
+            raws.append(('\r\n'.join(hdr) + '\r\n\r\n').encode('latin-1', 'replace') + b'ok')
+        seed = rng.randrange(1 << 30)
+        case = {'stream': 'cookies', 'raws': raws, 'urls': urls, 'seed': seed}
+        first = first or case
+        r = cookies_once(raws, urls, seed)
+        tag = 'ok' if r is None else r if isinstance(r, str) else type(r).__name__
+        ctx.case(('cookies', tuple(raws), tuple(urls)), tags=['cookies:' + tag, 'cookies:max-per-response=%d' % max(x.count(b'ookie') for x in raws)])
+        if isinstance(r, Exception) and not isinstance(r, remote_errors()):
+            cls, where = classify(r)
+            ctx.fail(cls, where, case, 'a web session with the cookie jar raised %r, which is not one of the per-URL error kinds' % r)
+    if first:
+        ctx.sample({'stream': 'cookies', 'urls': first['urls']})
+
+
 # ------------------------------------------------------------------ ftp
 class HostileFtp:
     def __init__(self, rng, plan):
@@ -597,6 +685,12 @@ def replay(ctx, case, kind=None, where=None):
         if isinstance(r, Exception) and not isinstance(r, remote_errors()):
             cls, w = classify(r)
             ctx.fail(cls, w, case, 'raised %r' % r)
+    elif s == 'cookies':
+        ctx.case(('cookies', case['seed']))
+        r = cookies_once(case['raws'], case['urls'], case['seed'])
+        if isinstance(r, Exception) and not isinstance(r, remote_errors()):
+            cls, w = classify(r)
+            ctx.fail(cls, w, case, 'raised %r' % r)
     elif s == 'ftp':
         ctx.case(('ftp', case['seed']))
         r = ftp_once(case['plan'], case['data'], case['listing'], case['seed'])
@@ -637,6 +731,7 @@ def run(ctx):
     stream_scrape(ctx, ctx.scale(4000, 60000))
     stream_http(ctx, ctx.scale(1200, 15000))
     stream_http(ctx, ctx.scale(400, 5000), robots=True)
+    stream_cookies(ctx, ctx.scale(120, 2500))
     stream_ftp(ctx, ctx.scale(1200, 15000))
     stream_ftp_proc(ctx, ctx.scale(500, 8000))
     stream_e2e(ctx, ctx.scale(100, 1200))
